@@ -814,4 +814,149 @@ theorem run_surplus_nonneg {s : State} (hinv : Inv s) (hop : OwnersPlain s) (hge
     have := hge x hx
     omega
 
+/-! ## the configuration flag never changes -/
+
+theorem createKeeper_fixed (s : State) (creator owner : Nat) (ls : List Lock) :
+    (createKeeper s creator owner ls).1.fixed = s.fixed := by
+  unfold createKeeper
+  split
+  · rfl
+  · split
+    · rfl
+    · dsimp only
+      split <;> rfl
+
+theorem topUpKeeper_fixed (s : State) (creator owner : Nat) (ls : List Lock) :
+    (topUpKeeper s creator owner ls).1.fixed = s.fixed := by
+  unfold topUpKeeper
+  repeat' split
+  all_goals rfl
+
+theorem withdrawUnlockedAt_fixed (s : State) (a owner : Nat) : (withdrawUnlockedAt s a owner).1.fixed = s.fixed := by
+  unfold withdrawUnlockedAt
+  split
+  · rfl
+  · dsimp only
+    repeat' split
+    all_goals rfl
+
+theorem withdrawLockedAt_fixed (s : State) (a owner : Nat) (d : Int) : (withdrawLockedAt s a owner d).1.fixed = s.fixed := by
+  unfold withdrawLockedAt
+  split
+  · rfl
+  · dsimp only
+    repeat' split
+    all_goals rfl
+
+theorem wagerBet_fixed (s0 s1 : State) (owner a : Nat) (x : WagerExt) (h : s1.fixed = s0.fixed) :
+    (wagerBet s0 s1 owner a x).1.fixed = s0.fixed := by
+  unfold wagerBet
+  repeat' split
+  all_goals first | rfl | exact h
+
+theorem wager_fixed (s : State) (owner : Nat) (main sub : Int) (x : WagerExt) :
+    (wager s owner main sub x).1.fixed = s.fixed := by
+  unfold wager
+  repeat' split
+  all_goals first
+    | rfl
+    | (rename_i s1 heq
+       have h := congrArg Prod.fst heq
+       simp only at h
+       exact wagerBet_fixed _ _ _ _ _ (by rw [← h]; exact withdrawLockedAt_fixed ..))
+
+theorem houseDeposit_fixed (s : State) (owner : Nat) (amount : Int) (x : HouseDepExt) :
+    (houseDeposit s owner amount x).1.fixed = s.fixed := by
+  unfold houseDeposit
+  repeat' split
+  all_goals rfl
+
+theorem houseWithdraw_fixed (s : State) (owner : Nat) (x : HouseWdExt) :
+    (houseWithdraw s owner x).1.fixed = s.fixed := by
+  unfold houseWithdraw
+  repeat' split
+  all_goals rfl
+
+theorem hook_fixed (s : State) (k : HookKind) (house : Nat) (x y : Int) : (hook s k house x y).1.fixed = s.fixed := by
+  unfold hook
+  cases k
+  · simp only [hookWin]
+    repeat' split
+    all_goals rfl
+  · simp only [hookLoss]
+    repeat' split
+    all_goals rfl
+  · simp only [hookRefund]
+    repeat' split
+    all_goals rfl
+  · simp only [hookRefund]
+    repeat' split
+    all_goals rfl
+
+theorem settle_fixed (s : State) (k : HookKind) (house : Nat) (refund x y : Int) :
+    (settle s k house refund x y).1.fixed = s.fixed := by
+  unfold settle
+  split
+  · rfl
+  · dsimp only
+    split
+    · rename_i s2 heq
+      have h := congrArg Prod.fst heq
+      simp only at h
+      rw [← h, hook_fixed]
+    · rfl
+
+theorem grant_fixed (s : State) (creator receiver : Nat) (amt : Int) (period : Nat) :
+    (grant s creator receiver amt period).1.fixed = s.fixed := by
+  unfold grant
+  split
+  · rename_i s1 heq
+    have h := congrArg Prod.fst heq
+    simp only at h
+    have h1 : s1.fixed = s.fixed := by
+      rw [← h]
+      unfold grantCreate
+      split
+      · rfl
+      · exact createKeeper_fixed ..
+    split
+    · split
+      · rename_i s2 heq2
+        have h2 := congrArg Prod.fst heq2
+        simp only at h2
+        rw [← h2, topUpKeeper_fixed, h1]
+      · rfl
+    · exact h1
+  · rfl
+
+theorem step_fixed (s : State) (op : Op) : (step s op).1.fixed = s.fixed := by
+  cases op with
+  | advance dt => rfl
+  | params w d => rfl
+  | fund a v => show (fund s a v).1.fixed = _; unfold fund; split <;> rfl
+  | send f t v => show (bankSend s f t v).1.fixed = _; unfold bankSend; split <;> rfl
+  | create c o ls =>
+    show (create s c o ls).1.fixed = _
+    unfold create
+    split
+    · rfl
+    · exact createKeeper_fixed ..
+  | topUp c o ls =>
+    show (topUp s c o ls).1.fixed = _
+    unfold topUp
+    split
+    · rfl
+    · exact topUpKeeper_fixed ..
+  | withdrawUnlocked o =>
+    show (withdrawUnlocked s o).1.fixed = _
+    unfold withdrawUnlocked
+    split
+    · rfl
+    · exact withdrawUnlockedAt_fixed ..
+  | grant c r amt p => exact grant_fixed ..
+  | wager o m sb x => exact wager_fixed ..
+  | houseDeposit o amt x => exact houseDeposit_fixed ..
+  | houseWithdraw o x => exact houseWithdraw_fixed ..
+  | settle k h r x y => exact settle_fixed ..
+
 end Sge.Subaccount
